@@ -292,3 +292,50 @@ def check_parallel_coverage(R, rule, bodies, whole_call_prefixes=(), floor=1, wh
                  "are never processed, and how many depends on the worker count"
                  % "; ".join(sorted({"%s%s" % (t[1], (" (line %s)" % t[2]) if t[2] else "") for t in other})))
     R.floor(rule, what, n, floor)
+
+
+def body_entries(b, h, blocks):
+    """first blocks of one iteration of a `for` loop: the `Some` successor(s) of the switch on the loop's own next()"""
+    inner = [(h2, b2) for h2, b2 in b.loops() if h2 != h and h2 in blocks]
+    out = []
+    for c in b.calls():
+        if c.name() == "next" and c.bb in blocks and not any(c.bb in b2 for h2, b2 in inner):
+            for s1 in b.succ(c.bb):
+                if b.blocks[s1]["term"]["t"] == "switch":
+                    for s2 in b.succ(s1):
+                        if s2 in blocks:
+                            out.append(s2)
+    return out
+
+
+def skips_effect(b, h, blocks, effect_blocks):
+    """True if some iteration can return to the loop head (or leave the loop normally) without passing any effect block"""
+    entries = body_entries(b, h, blocks)
+    if not entries:
+        return True
+    return h in b.reach_from(entries, avoid=set(effect_blocks))
+
+
+def loops_over(b, names_wanted):
+    """{wanted name: (header, blocks, adaptor names)} for natural loops whose driving iterator is rooted in a field / local of that name
+    (outermost such loop per name)"""
+    found = {}
+    for h, blocks in b.loops():
+        drv = driver_of(b, h, blocks)
+        if not drv or drv[2] is None:
+            continue
+        names, roots = flat(drv[2])
+        for r in roots:
+            if r["k"] != "root":
+                continue
+            fl = list(r["fields"]) + ([r["name"]] if r["name"] else [])
+            o = b.origin({"k": "copy", "pl": {"l": r["local"], "p": [], "t": ""}}, stop_named=False)
+            if o[0] == "place":
+                fl += [e["n"] for e in o[1]["p"] if e["k"] == "field"]
+                nm = b.local_name(o[1]["l"])
+                if nm:
+                    fl.append(nm)
+            for w in names_wanted:
+                if w in fl:
+                    found.setdefault(w, []).append((h, blocks, names))
+    return found
